@@ -106,6 +106,16 @@ fn decoder_job(ctx: &Ctx, s: &dyn SuiteOps, kind: Kind, others: &[Vec<u8>], n_ra
                 inputs.push(("every_length".into(), g.bytes(len)));
             }
         }
+        // every single-bit flip of the bincode form (enum tags, length prefixes and all)
+        if codec == Codec::Bincode && (!ctx.quick() || matches!(kind, Kind::PwFile | Kind::RegUpload | Kind::Setup | Kind::SetupHsm)) {
+            // quick: every fourth bit, the phase rotating with the suite
+            let (step, phase) = if ctx.quick() { (4, (crate::driver::fnv(s.name().as_bytes()) % 4) as usize) } else { (1, 0) };
+            for bit in (phase..enc.len() * 8).step_by(step) {
+                let mut b = enc.clone();
+                b[bit / 8] ^= 1 << (bit % 8);
+                inputs.push(("every_bit".into(), b));
+            }
+        }
         for _ in 0..n_mut {
             let mut b = enc.clone();
             let class = match g.below(8) {
@@ -359,7 +369,7 @@ const LENS: [usize; 8] = [0, 1, 255, 256, 65535, 65536, 65537, 131072];
 
 fn size_world(seed: u64, idx: u64, s: &dyn SuiteOps, which: usize, len: usize) -> World {
     let mut g = Gen::new(seed, &format!("gen/c12/size/{}/{}", s.name(), idx));
-    let mut b = WB::new(s, seed, idx, &format!("c12 parameter {} of {} bytes", ["password", "password_prefix_twin", "cred_id", "client_id", "server_id", "context_server", "context_client", "context_both"][which], len));
+    let mut b = WB::new(s, seed, idx, &format!("c12 parameter {} of {} bytes", ["password", "password_prefix_twin", "cred_id", "client_id", "server_id", "context_server", "context_client", "context_both", "password_at_finish_only"][which], len));
     let setup = b.setup(false);
     let big = g.bytes(len);
     let pw: Vec<u8> = if which == 0 { big.clone() } else { b"pw".to_vec() };
@@ -371,6 +381,22 @@ fn size_world(seed: u64, idx: u64, s: &dyn SuiteOps, which: usize, len: usize) -
         _ => WIds::default(),
     };
     let ksf = gen_ksf(&mut g, s.ksf_family(), true);
+    if which == 8 {
+        // the start steps see a short password, the finish steps the long one
+        let (_, ops) = b.reg_ops(&mut g, setup, b"pw", &big, &cred, ids.clone(), ksf.clone(), false);
+        for o in ops {
+            b.push(o);
+        }
+        let (r2, ops) = b.reg_ops(&mut g, setup, b"pw", b"pw", &cred, ids.clone(), ksf.clone(), false);
+        for o in ops {
+            b.push(o);
+        }
+        let (_, ops) = b.login_ops(&mut g, setup, Some(r2.record), b"pw", &big, &cred, None, None, ids.clone(), ids.clone(), ksf, false);
+        for o in ops {
+            b.push(o);
+        }
+        return b.w;
+    }
     if which == 1 {
         // registered: the longest encodable prefix; login: the over-long password sharing it
         let reg_pw = big[..len.min(65535)].to_vec();
@@ -433,7 +459,7 @@ pub fn size_judge(w: &World, r: &RunResult) -> Vec<Violation> {
 
 pub fn run(ctx: &Ctx) -> Report {
     let mut rep = Report::new(
-        "(a) no-panic monitor over seeded samples of the C01-C08/C16 world generators; (b) per suite x 11 decoders x {native, bincode, JSON}: random strings (lengths around the valid one), every length 0..len+8 (own prefix and random) and mutations of valid encodings (bit flips, byte rewrites, truncation, extension, deletion, window splices from unrelated encodings of other kinds and suites, whole-field 00/FF, equal-length field swaps); (c) everything that decodes is pushed through the protocol step that consumes it and re-encoded through all codecs; (d) every catalogue entry (invalid and extreme-valid: scalar 1, 2, order-1) planted in every element/scalar field, same treatment; (e) parameter lengths {0,1,255,256,65535,65536,65537,131072} for password, credential id, each identity, context (server / client / both) and the 65535-prefix twin of an over-long password: no panic, and anything over 65535 bytes must be refused by the call that takes it (identities, context) or by the finish step (password). distinct = (suite, decoder, codec, mutation class, decoded?) + world shapes",
+        "(a) no-panic monitor over seeded samples of the C01-C08/C16 world generators; (b) per suite x 11 decoders x {native, bincode, JSON}: random strings (lengths around the valid one), every length 0..len+8 (own prefix and random), every single-bit flip of the bincode form (quick: password file, upload and server setup only, every fourth bit with a per-suite phase), and mutations of valid encodings (bit flips, byte rewrites, truncation, extension, deletion, window splices from unrelated encodings of other kinds and suites, whole-field 00/FF, equal-length field swaps); (c) everything that decodes is pushed through the protocol step that consumes it and re-encoded through all codecs; (d) every catalogue entry (invalid and extreme-valid: scalar 1, 2, order-1) planted in every element/scalar field, same treatment; (e) parameter lengths {0,1,255,256,65535,65536,65537,131072} for password, credential id, each identity, context (server / client / both), the 65535-prefix twin of an over-long password and an over-long password given to the finish steps only: no panic, and anything over 65535 bytes must be refused by the call that takes it (identities, context) or by the finish step (password). distinct = (suite, decoder, codec, mutation class, decoded?) + world shapes",
     );
     let suites: Vec<&'static dyn SuiteOps> = SIM_SUITES.to_vec();
     // (b)-(d)
@@ -526,7 +552,7 @@ pub fn run(ctx: &Ctx) -> Report {
     // (e) sizes
     let mut sjobs = vec![];
     for si in 0..suites.len() {
-        for which in 0..8 {
+        for which in 0..9 {
             for (li, len) in LENS.iter().enumerate() {
                 // quick: every (parameter, length) pair on a rotating quarter of the suites
                 if ctx.quick() && (si + which + li) % 4 != 0 {
